@@ -76,6 +76,13 @@ func (b *Builder) BlockData() map[graphsync.RequestID][]graphsync.BlockData {
 	return b.blockData
 }
 
+// accountedSize is the number of bytes of this message that are accounted
+// for in the allocator: they were reserved when queued and are released
+// when the message is sent, fails or the data is scrubbed
+func (b *Builder) accountedSize() uint64 {
+	return b.BlockSize() + b.ExtensionSize()
+}
+
 func (b *Builder) build(publisher notifications.Publisher) (gsmsg.GraphSyncMessage, internalMetadata, error) {
 	message, err := b.Build()
 	if err != nil {
@@ -91,7 +98,7 @@ func (b *Builder) build(publisher notifications.Publisher) (gsmsg.GraphSyncMessa
 		},
 		ctx:             b.ctx,
 		topic:           b.topic,
-		msgSize:         b.BlockSize() + b.ExtensionSize(),
+		msgSize:         b.accountedSize(),
 		responseStreams: b.responseStreams,
 	}, nil
 }
